@@ -1,8 +1,10 @@
 """C18 -- every eigenvector code decodes to a distinct orthonormal triad (algebraic structure)."""
 import ast
-import re
+from fractions import Fraction
 
 from ..core.lin import Lin, Facts
+from ..core.poly import Poly
+from ..core.capeval import Algebra, CapEval, V3
 from ..core.srcmodel import dotted, unparse, walk_no_nested, AnalysisError, names_in
 
 CAT = 'abacusnbody/data/compaso_halo_catalog.py'
@@ -26,9 +28,9 @@ def run(chk):
                        'Levi-Civita cross product minor x major; all three are normalised. Distinctness within a cap and the angular '
                        'coverage are numerical and not decided.')
     chk.rule('C18-R1', 'code = ((cap*T^2 + cell)*A + iaz) with A=45, T=11; it = floor(sqrt(cell)), ir = cell - it^2', 5)
-    chk.rule('C18-R2', 'per cap the major axis is a signed permutation of the unit vector (zz,yy,xx), zz on axis cap//4; 12 distinct permutations', 14)
-    chk.rule('C18-R3', 'minor = (cos az, sin az) on the two non-dominant axes; third component = -(m_a M_a + m_b M_b)/M_k; normalised', 4)
-    chk.rule('C18-R4', 'middle = minor x major (cyclic Levi-Civita pattern), normalised; returns (minor, middle, major)', 4)
+    chk.rule('C18-R2', 'per cap the major axis is a signed permutation of the unit vector (zz,yy,xx), 12 distinct permutations', 13)
+    chk.rule('C18-R3', 'minor = (cos az, sin az) on the two non-dominant axes; third component = -(m_a M_a + m_b M_b)/M_k; normalised', 36)
+    chk.rule('C18-R4', 'middle = minor x major (cyclic Levi-Civita pattern), normalised; returns (minor, middle, major)', 13)
     chk.assume('within-cap injectivity of the real-valued cell map and the 4-degree coverage are numerical properties, not decided')
     A, T = const_of(src, 'EULER_ABIN'), const_of(src, 'EULER_TBIN')
     chk.check(A == 45 and T == 11, 'C18-R1', CAT, '<module>', 'EULER_ABIN = 45, EULER_TBIN = 11', f'{A}, {T}: {12 * (T or 0) ** 2 * (A or 0)} valid codes',
@@ -64,103 +66,159 @@ def run(chk):
             except ValueError:
                 return None
         return None
-    seen = {}
-    for s in fn.body:
-        if isinstance(s, ast.Assign) and isinstance(s.targets[0], ast.Name):
+    # prefix of integer statements: evaluated as floor-division normal forms (Lin)
+    k0 = None
+    for idx, s in enumerate(fn.body):
+        if isinstance(s, ast.Expr):
+            continue
+        if isinstance(s, ast.Assign) and len(s.targets) == 1 and isinstance(s.targets[0], ast.Name):
             v = ev(s.value)
             if v is not None:
                 env[s.targets[0].id] = v
-                seen.setdefault(s.targets[0].id, []).append((v, s))
-        if isinstance(s, ast.Assign) and unparse(s.targets[0]) == 'it':
-            break
+                continue
+            if isinstance(s.value, ast.Call) and dotted(s.value.func) in ('np.zeros', 'np.empty') or unparse(s.value).endswith('.shape[0]'):
+                continue
+        k0 = idx
+        break
+    if k0 is None:
+        raise AnalysisError('_unpack_euler16: no non-integer statement found')
     q1 = F.fdiv(b, A)
     want = {'iaz': b - q1.scale(A), 'cap': F.fdiv(q1, T * T), 'cell': q1 - F.fdiv(q1, T * T).scale(T * T)}
-    got_iaz = seen.get('iaz', [(None, fn)])[-1]
-    chk.check(got_iaz[0] == want['iaz'], 'C18-R1', CAT, Q, 'iaz = code mod 45', f'{got_iaz[0]}', f'azimuth index is {got_iaz[0]}, expected code - 45*(code//45)', node=got_iaz[1])
-    got_cap = seen.get('cap', [(None, fn)])[-1]
-    chk.check(got_cap[0] == want['cap'], 'C18-R1', CAT, Q, 'cap = code // (45*121)', f'{got_cap[0]}', f'cap index is {got_cap[0]}, expected (code//45)//121', node=got_cap[1])
-    # the in-cap cell is the last value bound to the parameter name before `it`
-    pname = fn.args.args[0].arg
-    got_cell = seen.get(pname, [(None, fn)])[-1]
-    chk.check(got_cell[0] == want['cell'], 'C18-R1', CAT, Q, 'cell = (code // 45) mod 121', f'{got_cell[0]}', f'in-cap cell is {got_cell[0]}, expected (code//45) - 121*cap', node=got_cell[1])
-    txt = {unparse(s.targets[0]): unparse(s.value) for s in fn.body if isinstance(s, ast.Assign)}
-    okit = txt.get('it') == f'np.floor(np.sqrt({pname})).astype(int)' and txt.get('ir') == f'{pname} - it * it'
-    chk.check(okit, 'C18-R1', CAT, Q, 'it = floor(sqrt(cell)), ir = cell - it^2', '', f'it = {txt.get("it")}, ir = {txt.get("ir")}', node=fn)
-    # unit vector construction
-    seq = [unparse(s) for s in fn.body]
-    oku = 'norm = 1.0 / np.sqrt(1.0 + xx * xx + yy * yy)' in seq and 'zz = norm' in seq and 'yy *= norm' in seq and 'xx *= norm' in seq and \
-        seq.index('zz = norm') > seq.index('norm = 1.0 / np.sqrt(1.0 + xx * xx + yy * yy)')
-    chk.check(oku, 'C18-R2', CAT, Q, '(zz, yy, xx) = (1, yy, xx)/sqrt(1+xx^2+yy^2) is a unit vector', '', 'the source vector of the cap table is no longer normalised', node=fn)
-    # ---- R2 cap table
-    pat = re.compile(r'^major\[cap == (\d+), (\d)\] = (-?)(xx|yy|zz)\[cap == (\d+)\]$')
-    table = {}
-    nstores = 0
-    for s in fn.body:
-        if isinstance(s, ast.Assign) and unparse(s.targets[0]).startswith('major[cap =='):
-            m = pat.match(unparse(s))
-            nstores += 1
-            if not m or m.group(1) != m.group(5):
-                chk.refuted('C18-R2', CAT, Q, unparse(s.targets[0]), f'store {unparse(s)} does not copy a component under its own cap mask', node=s)
+    roles = {}
+    for role, w in want.items():
+        roles[role] = sorted(nm for nm, v in env.items() if v == w)
+    first = fn.body[k0]
+    for role, desc, exp in (('iaz', 'azimuth index = code mod 45', 'code - 45*(code//45)'), ('cap', 'cap = code // (45*121)', '(code//45)//121'),
+                            ('cell', 'in-cap cell = (code // 45) mod 121', '(code//45) - 121*cap')):
+        chk.check(bool(roles[role]), 'C18-R1', CAT, Q, desc, f'held by {roles[role]}',
+                  f'no variable holds {exp} when the real-valued part starts (line {first.lineno}); integer variables are ' +
+                  ', '.join(f'{k} = {v}' for k, v in sorted(env.items()) if k != 'code')[:300], node=first)
+    if not all(roles.values()):
+        return
+    NORM = src.module_assigns(CAT).get('EULER_NORM')
+    okn = isinstance(NORM, ast.Constant) and isinstance(NORM.value, float) and abs(NORM.value - 1.0 / (1.0 - 0.5 ** 0.5) ** 0.5) < 1e-12
+    chk.check(okn, 'C18-R1', CAT, '<module>', 'EULER_NORM = 1/sqrt(1 - 1/sqrt(2))', '', f'EULER_NORM = {unparse(NORM) if NORM is not None else None}', node=NORM or fn)
+    # ---- per-cap symbolic evaluation
+    alg = Algebra()
+    cconsts = {'EULER_ABIN': Poly.const(A), 'EULER_TBIN': Poly.const(T), 'EULER_NORM': Poly.sym('NORM')}
+    cell, iaz = Poly.sym('cell'), Poly.sym('iaz')
+    # the format's inverse cell map (reference), built through the same algebra so that symbols are shared
+    it_ref = CapEval._floor(alg.sym_sqrt(cell, False))
+    ir_ref = cell - it_ref * it_ref
+    half = Poly.const(Fraction(1, 2))
+    tau = (it_ref + half) / Poly.const(T) / Poly.sym('NORM')
+    Y_ref = alg.div(tau * alg.sym_sqrt(Poly.const(2) - tau * tau, False), Poly.const(1) - tau * tau)
+    r_ref = alg.div(ir_ref + half, it_ref + half) - 1
+    X_ref = r_ref * Y_ref
+    az_ref = (iaz + half) * Poly.sym('PI') / Poly.const(A)
+    results = {}
+    reported = set()
+    for c in range(12):
+        ce = CapEval(alg, cconsts, roles['cap'], c)
+        for s in fn.body[:k0]:
+            if isinstance(s, ast.Assign) and isinstance(s.targets[0], ast.Name) and s.targets[0].id in env and ev(s.value) is not None:
                 continue
-            c, a = int(m.group(1)), int(m.group(2))
-            table.setdefault(c, {})[a] = (m.group(3) + m.group(4), s)
-    if nstores < 12:
-        raise AnalysisError(f'_unpack_euler16: cap table not recognised ({nstores} stores)')
+            ce.stmt(s)
+        for nm, v in env.items():
+            if nm in roles['cap']:
+                ce.env[nm] = Poly.const(c)
+            elif nm in roles['cell']:
+                ce.env[nm] = cell
+            elif nm in roles['iaz']:
+                ce.env[nm] = iaz
+        ce.run(fn.body[k0:])
+        for node, text in ce.problems:
+            key = (node.lineno, text.split(':')[0][:40])
+            if key not in reported:
+                reported.add(key)
+                chk.refuted('C18-R2', CAT, Q, f'line {node.lineno}: {unparse(node)[:50]}', f'cap {c}: {text}', node=node)
+        results[c] = ce
+    if reported:
+        return
     perms = {}
     for c in range(12):
-        row = table.get(c, {})
-        srcs = sorted(v[0].lstrip('-') for v in row.values())
-        zz_axis = [a for a, v in row.items() if v[0] == 'zz']
-        ok = sorted(row) == [0, 1, 2] and srcs == ['xx', 'yy', 'zz'] and zz_axis == [c // 4]
-        chk.check(ok, 'C18-R2', CAT, Q, f'cap {c}', f'{ {a: v[0] for a, v in sorted(row.items())} }',
-                  f'cap {c} assigns { {a: v[0] for a, v in sorted(row.items())} }: need zz on axis {c // 4} and (+-)yy, xx on the other two (a signed permutation keeps unit length)',
-                  node=next(iter(row.values()))[1] if row else fn, nf={a: v[0] for a, v in row.items()})
-        perms[c] = tuple(row.get(a, ('?',))[0] for a in range(3))
+        ce = results[c]
+        ret = ce.ret[1] if ce.ret else None
+        if not (isinstance(ret, tuple) and len(ret) == 3 and all(isinstance(x, V3) for x in ret)):
+            chk.refuted('C18-R4', CAT, Q, 'returns (minor, middle, major)', f'cap {c}: the function does not return three (N,3) arrays', node=ce.ret[0] if ce.ret else fn)
+            return
+        minor, middle, major = ret
+        # --- R2: major is a signed permutation of the reference unit vector
+        Zs = [i for i in range(3) if alg.positive(major.c[i]) == 1]
+        unit = alg.ident_zero(major.c[0] * major.c[0] + major.c[1] * major.c[1] + major.c[2] * major.c[2] - 1)
+        perm = None
+        if len(Zs) == 1 and unit:
+            Z = major.c[Zs[0]]
+            perm = {}
+            for i in range(3):
+                for nm_, R in (('Z', Z), ('Y', Y_ref * Z), ('X', X_ref * Z)):
+                    for sg in (1, -1):
+                        if nm_ not in [p[1:] for p in perm.values()] and i not in perm and alg.ident_zero(major.c[i] - R * sg):
+                            perm[i] = ('+' if sg == 1 else '-') + nm_
+            if sorted(v[1:] for v in perm.values()) != ['X', 'Y', 'Z']:
+                perm = None
+        chk.check(perm is not None, 'C18-R2', CAT, Q, f'cap {c}: major axis is a signed permutation of the unit vector (1, Y, X)/sqrt(1+X^2+Y^2) of the cell',
+                  f'{perm}', f'cap {c}: major = ({major.c[0]!r}, {major.c[1]!r}, {major.c[2]!r})'[:400] +
+                  (': not of unit length' if not unit else ': not the format\'s cell map (Y = t sqrt(2-t^2)/(1-t^2), t = (it+1/2)/(11 NORM); X = ((ir+1/2)/(it+1/2) - 1) Y) placed on three axes'),
+                  node=fn, nf=perm)
+        perms[c] = tuple((perm or {}).get(i, '?') for i in range(3))
+        # --- R3: minor
+        dot = minor.c[0] * major.c[0] + minor.c[1] * major.c[1] + minor.c[2] * major.c[2]
+        okdot = alg.ident_zero(dot)
+        chk.check(okdot, 'C18-R3', CAT, Q, f'cap {c}: minor . major = 0 identically', '',
+                  f'cap {c}: minor . major does not vanish identically: minor = ({minor.c[0]!r}, {minor.c[1]!r}, {minor.c[2]!r})'[:500], node=fn)
+        bad_div = []
+        for st, d, txt in ce.v3_divisions:
+            if not _nonzero(alg, d):
+                bad_div.append((st, txt, d))
+        chk.check(not bad_div, 'C18-R3', CAT, Q, f'cap {c}: every division in the axis construction is by a strictly positive quantity',
+                  f'{len(ce.v3_divisions)} division(s)',
+                  '; '.join(f'cap {c}, line {st.lineno}: divides by {txt} = {d!r}, which can vanish (e.g. the centre column ir == it gives X = 0): NaN axes' for st, txt, d in bad_div[:2])[:600],
+                  node=bad_div[0][0] if bad_div else fn)
+        trig = {k: v for k, v in alg.trig.items() if v[1] == az_ref}
+        cs = {v[0]: Poly.sym(k) for k, v in trig.items()}
+        okfree = False
+        if minor.normalised and minor.raw and 'cos' in cs and 'sin' in cs:
+            raw = minor.raw
+            hits = {}
+            for i in range(3):
+                for nm_ in ('cos', 'sin'):
+                    if raw[i] == cs[nm_] or raw[i] == -cs[nm_]:
+                        hits[nm_] = i
+            okfree = len(hits) == 2 and hits['cos'] != hits['sin']
+        chk.check(okfree, 'C18-R3', CAT, Q, f'cap {c}: minor has (cos az, sin az), az = (iaz + 1/2) pi / 45, on two axes and is normalised',
+                  '', f'cap {c}: minor before normalisation = {[repr(x) for x in (minor.raw or minor.c)]}, normalised = {minor.normalised}; azimuth angles seen: {[repr(v[1]) for v in alg.trig.values()][:3]}'[:500], node=fn)
+        # --- R4: middle = minor x major, normalised
+        okmid = middle.normalised and middle.raw is not None
+        if okmid:
+            for i in range(3):
+                j, k = (i + 1) % 3, (i + 2) % 3
+                cross = minor.c[j] * major.c[k] - minor.c[k] * major.c[j]
+                if not alg.ident_zero(middle.raw[i] - cross):
+                    okmid = False
+        chk.check(okmid, 'C18-R4', CAT, Q, f'cap {c}: middle = minor x major, normalised', '',
+                  f'cap {c}: middle is not the normalised cross product minor x major (handedness / orthogonality lost); normalised = {middle.normalised}', node=fn)
     dup = [(i, j) for i in range(12) for j in range(i + 1, 12) if perms[i] == perms[j]]
-    chk.check(not dup, 'C18-R2', CAT, Q, '12 caps are 12 distinct signed permutations', '', f'caps {dup} decode identically: distinct codes give the same major axis', node=fn)
-    # ---- R3 minor axis
-    masks = {}
-    for s in fn.body:
-        if isinstance(s, ast.Assign) and isinstance(s.targets[0], ast.Name) and re.match(r'^\(?cap // 4\)? == (\d)$', unparse(s.value)):
-            masks[s.targets[0].id] = int(re.match(r'^\(?cap // 4\)? == (\d)$', unparse(s.value)).group(1))
-    okaz = txt.get('az') == '(iaz + 0.5) * (1.0 / EULER_ABIN) * np.pi'
-    # after the cap table xx, yy are re-bound to cos/sin
-    cs = [unparse(s) for s in fn.body if isinstance(s, ast.Assign) and unparse(s.targets[0]) in ('xx', 'yy') and 'az' in unparse(s.value)]
-    okaz = okaz and cs == ['xx = np.cos(az)', 'yy = np.sin(az)']
-    chk.check(okaz and len(masks) == 3 and sorted(masks.values()) == [0, 1, 2], 'C18-R3', CAT, Q, 'azimuth angle and the three dominant-axis groups', f'{masks}',
-              f'az = {txt.get("az")}; cos/sin = {cs}; group masks {masks}', node=fn)
-    for mname, g in sorted(masks.items(), key=lambda kv: kv[1]):
-        comp = {}
-        for s in fn.body:
-            if isinstance(s, ast.Assign):
-                m = re.match(rf'^minor\[{mname}, (\d)\]$', unparse(s.targets[0]))
-                if m:
-                    comp[int(m.group(1))] = (unparse(s.value), s)
-        free = sorted(a for a in comp if a != g)
-        ok = sorted(comp) == [0, 1, 2] and len(free) == 2
-        if ok:
-            va, vb = comp[free[0]][0], comp[free[1]][0]
-            ok = {va, vb} == {f'xx[{mname}]', f'yy[{mname}]'}
-            a, b_ = free
-            num1 = f'minor[{mname}, {a}] * major[{mname}, {a}] + minor[{mname}, {b_}] * major[{mname}, {b_}]'
-            num2 = f'minor[{mname}, {b_}] * major[{mname}, {b_}] + minor[{mname}, {a}] * major[{mname}, {a}]'
-            third = comp[g][0]
-            ok = ok and third in (f'({num1}) / -major[{mname}, {g}]', f'({num2}) / -major[{mname}, {g}]')
-        chk.check(ok, 'C18-R3', CAT, Q, f'group {g}: minor perpendicular to major by construction',
-                  f'{ {k: v[0] for k, v in comp.items()} }',
-                  f'group {g} (dominant axis {g}): minor components { {k: v[0] for k, v in comp.items()} }: the third component must be -(m_a M_a + m_b M_b)/M_{g} so that minor.major = 0',
-                  node=comp[g][1] if g in comp else fn)
-    norms = [unparse(s) for s in fn.body if isinstance(s, ast.AugAssign) and 'np.linalg.norm' in unparse(s.value)]
-    chk.check('minor *= 1.0 / np.linalg.norm(minor, axis=1).reshape(N, 1)' in norms and 'middle *= 1.0 / np.linalg.norm(middle, axis=1).reshape(N, 1)' in norms,
-              'C18-R4', CAT, Q, 'minor and middle are normalised', '', f'normalisations present: {norms}', node=fn)
-    # ---- R4 cross product
-    for i in range(3):
-        j, k = (i + 1) % 3, (i + 2) % 3
-        want_ = f'minor[:, {j}] * major[:, {k}] - minor[:, {k}] * major[:, {j}]'
-        got = [unparse(s.value) for s in fn.body if isinstance(s, ast.Assign) and unparse(s.targets[0]) == f'middle[:, {i}]']
-        chk.check(got == [want_], 'C18-R4', CAT, Q, f'middle[{i}] = minor[{j}]*major[{k}] - minor[{k}]*major[{j}]', '',
-                  f'middle[{i}] = {got}; handedness requires {want_}', node=fn)
+    chk.check(not dup, 'C18-R2', CAT, Q, '12 caps are 12 distinct signed permutations', f'{perms}', f'caps {dup} decode identically: distinct codes give the same major axis', node=fn)
     rets = [n for n in walk_no_nested(fn) if isinstance(n, ast.Return)]
-    order = [unparse(s) for s in fn.body]
-    chk.check(len(rets) == 1 and unparse(rets[0].value) == '(minor, middle, major)', 'C18-R4', CAT, Q, 'returns (minor, middle, major)', '',
-              f'returns {unparse(rets[0].value) if rets else None}', node=fn, nontrivial=False)
+    chk.check(len(rets) == 1, 'C18-R4', CAT, Q, 'single return of (minor, middle, major)', '', f'{len(rets)} return statements', node=fn, nontrivial=False)
+
+
+def _nonzero(alg, d):
+    """d is a non-zero constant times (inverse) powers of strictly positive symbols."""
+    if len(d.t) != 1:
+        return False
+    (m, c), = d.t.items()
+    for s, _ in m:
+        if alg.sqrt_pos.get(s, False):
+            continue
+        if s in alg.norm:
+            comps = alg.norm[s]
+            has = {alg.trig[k][0] for x in comps for k in alg.trig if x == Poly.sym(k) or x == -Poly.sym(k)}
+            if {'cos', 'sin'} <= has:
+                continue          # norm >= sqrt(cos^2 + sin^2) = 1
+            if alg.ident_zero(alg.sqrt[s] - 1):
+                continue
+            return False
+        return False
+    return c != 0
